@@ -13,6 +13,7 @@ from vp.case import dec, enc
 from vp.oracle import histmodel as hm
 
 PROPERTY = "C05"
+SANITIZE = True          # thorough tier: reduced pass against an ASan/UBSan build of _chist
 RULE = ("data of size 1..300 from six families (floats over 12 decades with both signs; draws from a pool "
         "of <=6 values = heavy ties; integer-valued floats; integer dtypes i2/i4/i8/u1; values on "
         "base+k*step grids for exactly representable steps 0.25/0.5/1/2/3 and inexact ones 0.1, 1/3, "
